@@ -14,7 +14,7 @@ if ! git apply --check "$P" 2>/dev/null; then
 else
   git apply "$P"
 fi
-VERIF_REPO="$WT" /verif/bin/nricheck $ID --tier $TIER "$@" > /var/tmp/seedtest.$$.log 2>&1
+VERIF_OUT=/var/tmp/seedtest-out VERIF_REPO="$WT" /verif/bin/nricheck $ID --tier $TIER "$@" > /var/tmp/seedtest.$$.log 2>&1
 rc=$?
 echo "== $P on $ID: exit=$rc"
 grep -a -m3 "^finding" /var/tmp/seedtest.$$.log | cut -c1-300
